@@ -17,8 +17,8 @@ TABLE = {
         rule="a peer frame (valid, boundary-valued, malformed or garbage) is handed to recv",
         nontrivial=lambda n: _op(n) in ("recv", "garbage"), profile="hostile"),
     "C06": dict(
-        quick=["qos_c311", "qos_c50_rm", "qos_offline", "qos_server"],
-        thorough=["qos_c311", "qos_c311_auto", "qos_c50", "qos_c50_rm", "qos_offline", "qos_server", "mps_resume"],
+        quick=["qos_c311", "qos_c50_rm", "qos_offline", "qos_server", "qos_order"],
+        thorough=["qos_c311", "qos_c311_auto", "qos_c50", "qos_c50_rm", "qos_offline", "qos_server", "mps_resume", "qos_order"],
         rule="a QoS>0 PUBLISH/PUBREL is sent, acknowledged, erased or re-sent",
         nontrivial=lambda n: _kind(n) in ("publish", "pubrel", "puback", "pubrec", "pubcomp") or (_kind(n) == "connack" and n["call"]["pkt"]["sp"]),
         profile="qos"),
